@@ -9,9 +9,11 @@
         size(container) = header + sum (DeltaSize (size child)), DeltaSize n = 1 + n + sov n
      internal/queuebatch/default_batcher.go (Consume, flushCurrentBatchIfNecessary, Shutdown, refCountDone,
         multiDone), disabled_batcher.go, BatchConfig.Validate                            -> section Batcher
-   The model is faithful to the pinned tree INCLUDING its defects (F4: metric identity dropped by
-   extract*DataPoints; F5: bytes split never terminates when a record does not fit; C04-PROFUNIT: the profiles
-   count sizer measures a request in samples but extracts in profiles).
+   The model is faithful to the tree INCLUDING its defects (F4: metric identity dropped by
+   extract*DataPoints; the empty metric fragments and the data-message length prefix of the bytes sizer).
+   Repaired in /repo and modelled as repaired: the profiles count sizer counts samples at every level (the weight
+   [w] of an item: 1 for a log record / span, the number of samples for a profile); split() stops ("break")
+   when the extraction removed nothing (rmSize <= 0), discards the extracted payload and returns the remainder.
    No proofs in this file. *)
 From Verif Require Import Common.Base.
 Local Open Scope Z_scope.
@@ -94,11 +96,19 @@ End Walk.
 Definition inner_cap (sz : sizer) (cap h : Z) : Z := cap - (delta sz cap - cap) - h.
 
 (* an item: log record / span / profile / metric data point.  [iid] is the ghost identity,
-   [iraw] its own encoded size, [icnt] what it contributes to the request-level count of the
-   count sizer (1 everywhere, except profiles where ProfilesSize = SampleCount) *)
+   [iraw] its own encoded size, [icnt] the number of samples of a profile (1 for the other signals). *)
 Record item := { iid : Z; iraw : Z; icnt : Z }.
 
-Definition item_size (sz : sizer) (i : item) : Z :=
+(* the count weight of one item: LogsCountSizer.LogRecordSize = TracesCountSizer.SpanSize = 1,
+   ProfilesCountSizer.ProfileSize = p.Sample().Len() *)
+Definition w_unit (i : item) : Z := 1.
+Definition w_samples (i : item) : Z := icnt i.
+
+Definition item_size (w : item -> Z) (sz : sizer) (i : item) : Z :=
+  match sz with Items => w i | Bytes => iraw i end.
+
+(* metric data points: <Type>DataPointSize = 1 for the count sizer *)
+Definition point_size (sz : sizer) (i : item) : Z :=
   match sz with Items => 1 | Bytes => iraw i end.
 
 (* ---------------------------------------------------------------------------------------- *)
@@ -109,79 +119,79 @@ Record res := { rctx : Z; rhdr : Z; rscopes : list scope }.
 Definition payload := list res.
 
 (* ScopeLogsSize / ResourceLogsSize / LogsSize for both sizers *)
-Definition scope_size (sz : sizer) (s : scope) : Z :=
-  hdr sz (shdr s) + sumZf (fun i => delta sz (item_size sz i)) (sitems s).
-Definition res_size (sz : sizer) (r : res) : Z :=
-  hdr sz (rhdr r) + sumZf (fun s => delta sz (scope_size sz s)) (rscopes r).
+Definition scope_size (w : item -> Z) (sz : sizer) (s : scope) : Z :=
+  hdr sz (shdr s) + sumZf (fun i => delta sz (item_size w sz i)) (sitems s).
+Definition res_size (w : item -> Z) (sz : sizer) (r : res) : Z :=
+  hdr sz (rhdr r) + sumZf (fun s => delta sz (scope_size w sz s)) (rscopes r).
 Definition items_of_res (r : res) : list item := concat (map sitems (rscopes r)).
 Definition items_of (p : payload) : list item := concat (map items_of_res p).
-Definition payload_size (sz : sizer) (p : payload) : Z :=
+Definition payload_size (w : item -> Z) (sz : sizer) (p : payload) : Z :=
   match sz with
-  | Items => sumZf icnt (items_of p)                         (* LogRecordCount / SpanCount / SampleCount *)
-  | Bytes => sumZf (fun r => delta sz (res_size sz r)) p
+  | Items => sumZf w (items_of p)                            (* LogRecordCount / SpanCount / SampleCount *)
+  | Bytes => sumZf (fun r => delta sz (res_size w sz r)) p
   end.
 
 (* extractScopeLogs *)
-Definition extract_scope (sz : sizer) (s : scope) (cap : Z) : scope * scope * Z :=
+Definition extract_scope (w : item -> Z) (sz : sizer) (s : scope) (cap : Z) : scope * scope * Z :=
   let dest0 := {| sctx := sctx s; shdr := shdr s; sitems := [] |} in
-  let capLeft := inner_cap sz cap (scope_size sz dest0) in
-  let '(d, k, rm) := walk sz (item_size sz) None (fun _ => true) (sitems s) capLeft 0 in
+  let capLeft := inner_cap sz cap (scope_size w sz dest0) in
+  let '(d, k, rm) := walk sz (item_size w sz) None (fun _ => true) (sitems s) capLeft 0 in
   ({| sctx := sctx s; shdr := shdr s; sitems := d |},
    {| sctx := sctx s; shdr := shdr s; sitems := k |}, rm).
 
 Definition scope_nonempty (s : scope) : bool := negb (Nat.eqb (length (sitems s)) 0).
 
 (* extractResourceLogs *)
-Definition extract_res (sz : sizer) (r : res) (cap : Z) : res * res * Z :=
+Definition extract_res (w : item -> Z) (sz : sizer) (r : res) (cap : Z) : res * res * Z :=
   let dest0 := {| rctx := rctx r; rhdr := rhdr r; rscopes := [] |} in
-  let capLeft := inner_cap sz cap (res_size sz dest0) in
-  let '(d, k, rm) := walk sz (scope_size sz) (Some (extract_scope sz)) scope_nonempty (rscopes r) capLeft 0 in
+  let capLeft := inner_cap sz cap (res_size w sz dest0) in
+  let '(d, k, rm) := walk sz (scope_size w sz) (Some (extract_scope w sz)) scope_nonempty (rscopes r) capLeft 0 in
   ({| rctx := rctx r; rhdr := rhdr r; rscopes := d |},
    {| rctx := rctx r; rhdr := rhdr r; rscopes := k |}, rm).
 
 Definition res_nonempty (r : res) : bool := negb (Nat.eqb (length (rscopes r)) 0).
 
 (* extractLogs: capacityLeft := capacity - sz.LogsSize(emptyLogs) = capacity *)
-Definition extract_payload (sz : sizer) (p : payload) (cap : Z) : payload * payload * Z :=
-  walk sz (res_size sz) (Some (extract_res sz)) res_nonempty p (cap - payload_size sz []) 0.
+Definition extract_payload (w : item -> Z) (sz : sizer) (p : payload) (cap : Z) : payload * payload * Z :=
+  walk sz (res_size w sz) (Some (extract_res w sz)) res_nonempty p (cap - payload_size w sz []) 0.
 
 (* a request = payload + cachedSize (-1 = not computed) *)
 Record req := { rp : payload; rcached : Z }.
 
 (* logsRequest.size *)
-Definition req_size (sz : sizer) (r : req) : Z :=
-  if rcached r =? -1 then payload_size sz (rp r) else rcached r.
+Definition req_size (w : item -> Z) (sz : sizer) (r : req) : Z :=
+  if rcached r =? -1 then payload_size w sz (rp r) else rcached r.
 
-(* split: the loop runs while the CACHED size exceeds maxSize.  [None] = out of fuel. *)
-Fixpoint split_loop (fuel : nat) (sz : sizer) (max : Z) (p : payload) (cached : Z) (acc : list req)
+(* split: the loop runs while the CACHED size exceeds maxSize; after the memo update, `if rmSize <= 0 { break }`:
+   when nothing was removed the loop stops, the extracted payload is discarded and the remainder is returned as it
+   is.  [None] = out of fuel. *)
+Fixpoint split_loop (fuel : nat) (w : item -> Z) (sz : sizer) (max : Z) (p : payload) (cached : Z) (acc : list req)
   : option (list req) :=
   if cached >? max then
     match fuel with
     | O => None
     | S f =>
-      let '(d, k, rm) := extract_payload sz p max in
-      split_loop f sz max k (cached - rm) (acc ++ [{| rp := d; rcached := -1 |}])
+      let '(d, k, rm) := extract_payload w sz p max in
+      if rm <=? 0 then Some (acc ++ [{| rp := k; rcached := cached - rm |}])
+      else split_loop f w sz max k (cached - rm) (acc ++ [{| rp := d; rcached := -1 |}])
     end
   else Some (acc ++ [{| rp := p; rcached := cached |}]).
 
 (* MergeSplit (known sizer type, same request type).  Out of fuel = None (an explicit error value). *)
-Definition merged (sz : sizer) (a : req) (b : option req) : req :=
+Definition merged (w : item -> Z) (sz : sizer) (a : req) (b : option req) : req :=
   match b with
   | None => a
-  | Some b' => {| rp := rp a ++ rp b'; rcached := req_size sz a + req_size sz b' |}   (* mergeTo *)
+  | Some b' => {| rp := rp a ++ rp b'; rcached := req_size w sz a + req_size w sz b' |}   (* mergeTo *)
   end.
 
-(* every iteration of the loop that changes anything removes at least one node (item, scope or
-   resource) from the source for good; an iteration that removes nothing leaves the state unchanged,
-   so the Go loop then runs for ever.  Hence fuel = number of nodes + 2 decides termination. *)
-Definition nodes_of (p : payload) : nat :=
-  length p + length (concat (map rscopes p)) + length (items_of p).
-Definition fuel_of (p : payload) : nat := S (S (nodes_of p)).
+(* every iteration that continues has lowered the memo by at least 1 and the loop runs only while the memo
+   exceeds max: fuel = (memo - max) + 1 never runs out (Properties.split_terminates) *)
+Definition fuel_of (cached max : Z) : nat := S (Z.to_nat (cached - max)).
 
-Definition merge_split (sz : sizer) (max : Z) (a : req) (b : option req) : option (list req) :=
-  let m := merged sz a b in
+Definition merge_split (w : item -> Z) (sz : sizer) (max : Z) (a : req) (b : option req) : option (list req) :=
+  let m := merged w sz a b in
   if max =? 0 then Some [m]
-  else split_loop (fuel_of (rp m)) sz max (rp m) (req_size sz m) [].
+  else split_loop (fuel_of (req_size w sz m) max) w sz max (rp m) (req_size w sz m) [].
 
 (* observable: every item with its full context *)
 Definition flat_res (r : res) : list (Z * Z * Z) :=
@@ -204,7 +214,7 @@ Definition mpayload := list mres.
    bytes = header + (tag + length prefix + data message) *)
 Definition metric_size (sz : sizer) (m : metric) : Z :=
   if mkind m =? 0 then hdr sz (mhdr m)
-  else hdr sz (mhdr m) + delta sz (hdr sz (mdhdr m) + sumZf (fun i => delta sz (item_size sz i)) (mpts m)).
+  else hdr sz (mhdr m) + delta sz (hdr sz (mdhdr m) + sumZf (fun i => delta sz (point_size sz i)) (mpts m)).
 Definition mscope_size (sz : sizer) (s : mscope) : Z :=
   hdr sz (mshdr s) + sumZf (fun m => delta sz (metric_size sz m)) (msmetrics s).
 Definition mres_size (sz : sizer) (r : mres) : Z :=
@@ -229,7 +239,7 @@ Definition extract_metric (sz : sizer) (m : metric) (cap : Z) : metric * metric 
   else
     let dest0 := {| mid := 0; mkind := mkind m; mhdr := 0; mdhdr := 0; mpts := [] |} in
     let capLeft := inner_cap sz cap (metric_size sz dest0) in
-    let '(d, k, rm) := walk sz (item_size sz) None (fun _ => true) (mpts m) capLeft 0 in
+    let '(d, k, rm) := walk sz (point_size sz) None (fun _ => true) (mpts m) capLeft 0 in
     ({| mid := 0; mkind := mkind m; mhdr := 0; mdhdr := 0; mpts := d |},
      {| mid := mid m; mkind := mkind m; mhdr := mhdr m; mdhdr := mdhdr m; mpts := k |}, rm).
 
@@ -272,7 +282,8 @@ Fixpoint msplit_loop (fuel : nat) (sz : sizer) (max : Z) (p : mpayload) (cached 
     | O => None
     | S f =>
       let '(d, k, rm) := extract_mpayload sz p max in
-      msplit_loop f sz max k (cached - rm) (acc ++ [{| mrp := d; mrcached := -1 |}])
+      if rm <=? 0 then Some (acc ++ [{| mrp := k; mrcached := cached - rm |}])      (* rmSize <= 0: break *)
+      else msplit_loop f sz max k (cached - rm) (acc ++ [{| mrp := d; mrcached := -1 |}])
     end
   else Some (acc ++ [{| mrp := p; mrcached := cached |}]).
 
@@ -282,15 +293,10 @@ Definition mmerged (sz : sizer) (a : mreq) (b : option mreq) : mreq :=
   | Some b' => {| mrp := mrp a ++ mrp b'; mrcached := mreq_size sz a + mreq_size sz b' |}
   end.
 
-Definition mnodes_of (p : mpayload) : nat :=
-  length p + length (concat (map mrscopes p)) + length (concat (map msmetrics (concat (map mrscopes p))))
-  + length (concat (map mpts (concat (map msmetrics (concat (map mrscopes p)))))).
-Definition mfuel_of (p : mpayload) : nat := S (S (mnodes_of p)).
-
 Definition mmerge_split (sz : sizer) (max : Z) (a : mreq) (b : option mreq) : option (list mreq) :=
   let m := mmerged sz a b in
   if max =? 0 then Some [m]
-  else msplit_loop (mfuel_of (mrp m)) sz max (mrp m) (mreq_size sz m) [].
+  else msplit_loop (fuel_of (mreq_size sz m) max) sz max (mrp m) (mreq_size sz m) [].
 
 (* observables: full context (id, resource, scope, metric identity, metric type) and the part of it
    that the code does preserve *)
